@@ -23,7 +23,10 @@ UNSUPPORTED_STMTS = [
     "q = list(i async for i in y)",
     "q = sum(i for a in y if a for b in a async for i in b)",
 ]
-IN_FUNCTION_ONLY = ["yield 1", "x = yield", "yield from it", "x = [(yield 2)]", "f(lambda: (yield))"]
+IN_FUNCTION_ONLY = ["yield 1", "x = yield", "yield from it", "x = [(yield 2)]", "f(lambda: (yield))",
+                    # a BARE yield (no value: a node without children) in operand / argument / element / index / field positions
+                    "print((yield))", "t = a + (yield)", "q = [(yield), (yield)]", "a[(yield)] = 1", "s = f'{(yield)}'",
+                    "u = -(yield)", "v = 1 if (yield) else 2", "w = (yield).b", "f(k=(yield), *(yield))"]
 ILLEGAL = {
     "break": "break", "continue": "continue", "return": "return 1",
     "two-stars": "*a, *b = [1, 2]", "two-stars-nested": "x, (*y, z, *w) = 1, [2, 3]", "two-stars-for": "for *a, *b in []:\n    pass",
